@@ -39,6 +39,45 @@ def dag_stream(rng, n, overridable_every=0, start=0):
         yield c
 
 
+def corpus_stream(rng, pid):
+    """Minimised past failures (corpus/<pid>/*.onnx), run before the fresh cases.  Feeds are derived from the declared
+    input types; initializers that are graph inputs are the overridable ones."""
+    import glob
+    from onnx import numpy_helper
+    from harness import common
+    np2 = {v: k for k, v in G.NP2ONNX.items()}
+    for path in sorted(glob.glob(os.path.join(common.VERIF, "corpus", pid, "*.onnx"))):
+        m = onnx.load(path)
+        inits = {i.name: numpy_helper.to_array(i) for i in m.graph.initializer}
+        feeds = [{}, {}, {}]
+        over = []
+        ok = True
+        for vi in m.graph.input:
+            if vi.name in inits:
+                a = inits[vi.name]
+                kind = "bool" if a.dtype == np.bool_ else ("shape" if a.dtype == np.int64 else "float")
+                over.append((vi.name, a, kind))
+                continue
+            tt = vi.type.tensor_type
+            dt = np2.get(tt.elem_type)
+            if dt is None or dt == G.STR:
+                ok = False
+                break
+            shp = tuple((d.dim_value if d.HasField("dim_value") else 2) for d in tt.shape.dim)
+            for k in range(3):
+                if k == 0:
+                    a = np.zeros(shp, dtype=dt)
+                elif k == 1:
+                    a = np.ones(shp, dtype=dt)
+                else:
+                    a = G.nice(rng, dt, shp)
+                feeds[k][vi.name] = np.asarray(a, dtype=dt).reshape(shp)
+        if not ok:
+            continue
+        name = os.path.splitext(os.path.basename(path))[0]
+        yield G.Case(m, feeds, ["corpus:" + name], [False] * len(m.graph.output), "corpus", "corpus-" + name, overridable=over)
+
+
 def lifted_stream(rng, n, thorough=False):
     dirs = G.node_test_dirs()
     if not thorough:
@@ -63,6 +102,14 @@ def validity(case, need_deterministic=False):
             errs.append(f"{name}: {out[:80]}")
     if base["ort"] is None and base["ref"] is None:
         return None, "no runtime executes the model (" + "; ".join(errs) + ")"
+    if any(o.domain == "ai.onnx.preview" for o in case.model.opset_import):
+        return None, "preview-domain operator"
+    if base["ort"] is not None and base["ref"] is not None:
+        # folding evaluates with onnx.reference: where the two runtimes already disagree on the ORIGINAL model (kernel
+        # differences, random operators with a seed) the model says nothing about the optimizer
+        for a, b in zip(base["ort"], base["ref"]):
+            if R.compare_outputs(a, b, case.exact, loose=True) is not None:
+                return None, "runtimes disagree on the original model"
     if need_deterministic:
         for name, fn in R.RUNTIMES:
             if base[name] is not None:
@@ -213,7 +260,7 @@ def differential(ctx, case, base, plan, stats):
                 if st != "ok":
                     return (name, "optimized-model-fails", out, None) if want_detail else True
                 for k, (w, g) in enumerate(zip(base[name], out)):
-                    d = R.compare_outputs(w, g, case.exact)
+                    d = R.compare_outputs(w, g, case.exact, loose=case.kind.startswith("lifted"))
                     if d is not None:
                         return (name, diff_kind(d), d, k) if want_detail else True
             return None if want_detail else False
@@ -225,6 +272,10 @@ def differential(ctx, case, base, plan, stats):
         stage = attribute_stage(case, entry, opts, as_ir, failing)
         if "Required inputs" in str(detail) and case.overridable:
             key = "C03:initializer-input:default-removed"
+        elif case.kind.startswith("lifted"):
+            # the same node test is lifted in several ways: key on the operator under test
+            op = next((f[3:] for f in case.features if f.startswith("op:")), "?")
+            key = f"C03:{stage}:node-test-op:{op}:{kind}"
         else:
             # shrink to the first differing output to name the culprit ops
             small = case.model
